@@ -14,7 +14,8 @@ ALLOWED, DENIED = "allowed", "denied"
 
 def stub_client(producer, log, added):
     from aiokafka.protocol.produce import ProduceRequest
-    from aiokafka.protocol.transaction import AddPartitionsToTxnRequest, EndTxnRequest, InitProducerIdRequest
+    from aiokafka.protocol.transaction import (AddOffsetsToTxnRequest, AddPartitionsToTxnRequest, EndTxnRequest,
+                                               InitProducerIdRequest, TxnOffsetCommitRequest)
     client = producer.client
     cluster = client.cluster
     loop = asyncio.get_running_loop()
@@ -55,8 +56,18 @@ def stub_client(producer, log, added):
         if isinstance(request, ProduceRequest):
             parts = sorted((t, p) for t, ps in request._topics for p, _ in ps)
             log.append(("Produce", parts, [tp for tp in parts if tp not in added]))
+            delay = getattr(producer, "_verif_produce_delay", 0)
+            if delay:
+                await asyncio.sleep(delay)              # a slow partition leader
+                log.append(("Produce-answered", parts))
             topics = [(t, [(p, TOPIC_AUTHORIZATION_FAILED if t == DENIED else 0, 100, -1) for p, _ in ps]) for t, ps in request._topics]
             return SimpleNamespace(API_VERSION=3, topics=topics)
+        if isinstance(request, AddOffsetsToTxnRequest):
+            log.append(("AddOffsetsToTxn", request._group_id))
+            return SimpleNamespace(error_code=0)
+        if isinstance(request, TxnOffsetCommitRequest):
+            log.append(("TxnOffsetCommit", request._group_id))
+            return SimpleNamespace(errors=[(t, [(p, 0) for p, *_ in ps]) for t, ps in request._topics])
         if isinstance(request, EndTxnRequest):
             log.append(("EndTxn", "COMMIT" if request._transaction_result else "ABORT"))
             added.clear()
@@ -133,6 +144,93 @@ async def scenario(first_sends, abort_at_once=False):
             if f.done() and not f.cancelled():
                 f.exception()
     return ["first transaction sends %r: %s; requests: %r" % (first_sends, p, log) for p in problems]
+
+
+async def end_while_in_flight(how):
+    """'never ends a transaction while one of its batches is unacknowledged': the leader answers Produce late, the application
+    ends the transaction (commit or abort) without awaiting its send futures"""
+    from aiokafka import AIOKafkaProducer
+    log, added, problems = [], set(), []
+    producer = AIOKafkaProducer(bootstrap_servers="broker.invalid:9092", transactional_id="txn", linger_ms=0, retry_backoff_ms=10)
+    stub_client(producer, log, added)
+    producer._verif_produce_delay = 0.2
+    await producer.start()
+    futs = []
+    try:
+        await producer.begin_transaction()
+        futs.append(await producer.send(ALLOWED, b"v", partition=0))
+        for _ in range(200):                         # until the batch is on its way to the leader
+            if any(e[0] == "Produce" for e in log):
+                break
+            await asyncio.sleep(0.002)
+        end = producer.commit_transaction if how == "commit" else producer.abort_transaction
+        await asyncio.wait_for(end(), 5)
+        kinds = [e[0] for e in log]
+        if "EndTxn" not in kinds:
+            problems.append("no EndTxn was sent")
+        elif "Produce-answered" not in kinds[:kinds.index("EndTxn")]:
+            problems.append("EndTxn(%s) reached the coordinator while the transaction's Produce request was still unanswered"
+                            % [e[1] for e in log if e[0] == "EndTxn"][0])
+    except Exception as e:
+        problems.append("scenario raised %r" % (e,))
+    finally:
+        try:
+            await asyncio.wait_for(producer.stop(), 10)
+        except Exception as e:
+            problems.append("stop() raised %r" % (e,))
+        for f in futs:
+            if f.done() and not f.cancelled():
+                f.exception()
+    return ["%s_transaction() with a batch in flight: %s; requests: %r" % (how, p, log) for p in problems]
+
+
+async def offsets_of_groups(groups):
+    """'all offset commits of a transaction whose commit_transaction() returned': offsets are sent to the transaction for the
+    given consumer groups, in that order; every group's TxnOffsetCommit has to be preceded, in the same transaction, by an
+    AddOffsetsToTxn for that group (otherwise the coordinator never writes the marker that makes them visible)"""
+    from aiokafka import AIOKafkaProducer
+    from aiokafka.structs import TopicPartition, OffsetAndMetadata
+    log, added, problems = [], set(), []
+    producer = AIOKafkaProducer(bootstrap_servers="broker.invalid:9092", transactional_id="txn", linger_ms=0, retry_backoff_ms=10)
+    stub_client(producer, log, added)
+    await producer.start()
+    try:
+        for txn in (1, 2):
+            mark = len(log)
+            await producer.begin_transaction()
+            for g in groups:
+                await asyncio.wait_for(producer.send_offsets_to_transaction({TopicPartition("in", 0): OffsetAndMetadata(5, "")}, g), 5)
+            await asyncio.wait_for(producer.commit_transaction(), 5)
+            registered = set()
+            for e in log[mark:]:
+                if e[0] == "AddOffsetsToTxn":
+                    registered.add(e[1])
+                elif e[0] == "TxnOffsetCommit" and e[1] not in registered:
+                    problems.append("transaction %d: TxnOffsetCommit for group %r without an AddOffsetsToTxn for it in this transaction" % (txn, e[1]))
+            if not any(e[0] == "EndTxn" and e[1] == "COMMIT" for e in log[mark:]):
+                problems.append("transaction %d: no EndTxn(COMMIT)" % txn)
+    except Exception as e:
+        problems.append("scenario raised %r" % (e,))
+    finally:
+        try:
+            await asyncio.wait_for(producer.stop(), 10)
+        except Exception as e:
+            problems.append("stop() raised %r" % (e,))
+    return ["offsets for groups %r: %s; requests: %r" % (groups, p, [e for e in log if e[0] != "Produce"]) for p in sorted(set(problems))]
+
+
+def groups_sweep():
+    bad = []
+    for groups in (["g1"], ["g1", "g1"], ["g1", "g2"], ["g1", "g2", "g1"], ["g2", "g1", "g3"]):
+        bad += asyncio.run(offsets_of_groups(groups))
+    return bad
+
+
+def in_flight_sweep():
+    bad = []
+    for how in ("commit", "abort"):
+        bad += asyncio.run(end_while_in_flight(how))
+    return bad
 
 
 def sweep():
